@@ -45,6 +45,7 @@ type Rig struct {
 	accepts  map[string]int
 	origin    net.Listener
 	originTLS net.Listener
+	tlsConfig *tls.Config // set by StartTLSOrigin: every scripted peer then also answers TLS
 	upstream  net.Listener
 	// UpstreamRequire, when non-empty, makes the upstream proxy answer 407 unless Proxy-Authorization equals it.
 	UpstreamRequire string
@@ -126,7 +127,29 @@ func (r *Rig) serveRequests(c net.Conn, br *bufio.Reader, peer, kind, marker str
 
 func (r *Rig) serveOrigin(c net.Conn) {
 	defer c.Close()
-	r.serveRequests(c, bufio.NewReader(c), "origin", "request", "origin")
+	br := bufio.NewReader(c)
+	if tc, tbr, ok := r.maybeTLS(c, br); ok {
+		r.serveRequests(tc, tbr, "origin", "request-tls", "origin-tls")
+		return
+	}
+	r.serveRequests(c, br, "origin", "request", "origin")
+}
+
+// maybeTLS looks at the first byte: a TLS ClientHello (0x16) is answered with a TLS handshake
+// (when the rig has a certificate, see StartTLSOrigin), anything else is served as plain HTTP.
+func (r *Rig) maybeTLS(c net.Conn, br *bufio.Reader) (net.Conn, *bufio.Reader, bool) {
+	if r.tlsConfig == nil {
+		return nil, nil, false
+	}
+	b, err := br.Peek(1)
+	if err != nil || b[0] != 0x16 {
+		return nil, nil, false
+	}
+	tc := tls.Server(&bufferedConn{Conn: c, r: br}, r.tlsConfig)
+	if err := tc.Handshake(); err != nil {
+		return tc, bufio.NewReader(tc), true // serveRequests will fail on the first read
+	}
+	return tc, bufio.NewReader(tc), true
 }
 
 func (r *Rig) serveUpstream(c net.Conn) {
@@ -155,7 +178,11 @@ func (r *Rig) serveUpstream(c net.Conn) {
 			if _, err := io.WriteString(c, "HTTP/1.1 200 Connection established\r\n\r\n"); err != nil {
 				return
 			}
-			// the tunnel ends here: play the origin for whatever comes through
+			// the tunnel ends here: play the origin for whatever comes through (plain or TLS)
+			if tc, tbr, ok := r.maybeTLS(c, br); ok {
+				r.serveRequests(tc, tbr, "upstream", "tunnel-inner", "tunnel")
+				return
+			}
 			r.serveRequests(c, br, "upstream", "tunnel-inner", "tunnel")
 			return
 		}
@@ -220,6 +247,7 @@ type ProxySpec struct {
 	ReqModifiers []forwarder.RequestModifier
 	PAC          forwarder.PACResolver // mutually exclusive with Upstream
 	MITM         bool                  // MITM every CONNECT; upstream connections go to the TLS origin
+	NoKeepAlive  bool                  // the proxy's transport opens a fresh upstream connection per request
 }
 
 // Proxy is a running proxy under test.
@@ -262,6 +290,7 @@ func (r *Rig) StartProxy(s ProxySpec) (*Proxy, error) {
 	tr := &http.Transport{
 		DialContext:           r.dialer(!s.RealDial, s.MITM),
 		TLSClientConfig:       &tls.Config{InsecureSkipVerify: true},
+		DisableKeepAlives:     s.NoKeepAlive,
 		ResponseHeaderTimeout: 5 * time.Second,
 		IdleConnTimeout:       30 * time.Second,
 	}
